@@ -20,6 +20,7 @@ import (
 // 全局变量
 var (
 	streams     sync.Map            // 流媒体集合 string->*Stream
+	registLock  sync.Mutex          // 保证注册表"先读后写"(替换、比较后删除)的原子性
 	psFactories []PullStreamFactory // 拉流工厂
 )
 
@@ -42,14 +43,17 @@ func RegistPullStreamFactory(f PullStreamFactory) {
 // Regist 注册流
 func Regist(s *Stream) {
 	// 获取同 path 的现有流
+	registLock.Lock()
 	oldSI, ok := streams.Load(s.path)
 	if s == oldSI { // 如果是同一个源
+		registLock.Unlock()
 		return
 	}
 	simhook.Y("global.regist.betweenLoadAndStore")
 
 	// 设置新流
 	streams.Store(s.path, s)
+	registLock.Unlock()
 
 	// 如果存在旧流
 	if ok {
@@ -64,6 +68,7 @@ func Regist(s *Stream) {
 
 // Unregist 取消注册
 func Unregist(s *Stream) {
+	registLock.Lock()
 	si, ok := streams.Load(s.path)
 	if ok {
 		s2 := si.(*Stream)
@@ -72,6 +77,7 @@ func Unregist(s *Stream) {
 			streams.Delete(s.path)
 		}
 	}
+	registLock.Unlock()
 	s.Close()
 }
 
